@@ -741,8 +741,48 @@ func checkRunAwaits(c *Ctx, run *Func) {
 				}
 				return true
 			})
+			if direct && g == run {
+				R.OK("O4", at, pos, "Start is followed by "+member+".Wait() in Run itself")
+				return true
+			}
 			if direct {
-				R.OK("O4", at, pos, "Start is followed by "+member+".Wait() in the same goroutine")
+				// awaited in a goroutine Run starts: Run joins that goroutine, and not only for as long as its own context lasts
+				if g.Parent != run {
+					R.Fail("O4", at, pos, "the goroutine that starts and awaits "+member+" is not started by Run's own body: the join cannot be decided")
+					return true
+				}
+				rfl := newFlow(run)
+				var join *ast.CallExpr
+				bounded := ""
+				walkNoLit(run.Body, func(y ast.Node) bool {
+					call, ok := y.(*ast.CallExpr)
+					if !ok || call.Pos() < g.Lit.End() || join != nil {
+						return true
+					}
+					if _, isWait := isWaitCall(info, call); isWait {
+						if waitBoundedBy(run, call, ctxObj) {
+							bounded = p.Position(call.Pos())
+						} else {
+							join = call
+						}
+					}
+					return true
+				})
+				switch {
+				case join == nil && bounded != "":
+					R.Fail("O4", at, pos, fmt.Sprintf("%s awaits the goroutines that run %s only through a wait bounded by Run's own context (%s): when the group's context ends Run returns at once, the members are still shutting down, and what they return is lost", run.Name, member, bounded))
+				case join == nil:
+					R.Fail("O4", at, pos, fmt.Sprintf("%s starts and awaits %s in a goroutine it never joins", run.Name, member))
+				default:
+					okJoin := true
+					walkNoLit(run.Body, func(y ast.Node) bool {
+						if rs, isRet := y.(*ast.ReturnStmt); isRet && rs.Pos() > g.Lit.End() && !rfl.Dominates(join, rs) {
+							okJoin = false
+						}
+						return true
+					})
+					R.Check(okJoin, "O4", at, pos, "Start is followed by "+member+".Wait() in a goroutine that Run joins ("+p.Position(join.Pos())+") before it returns", run.Name+" can return without joining the goroutine that awaits "+member)
+				}
 				return true
 			}
 			if queue == nil {
@@ -780,7 +820,7 @@ func checkRunAwaits(c *Ctx, run *Func) {
 				return true
 			}
 			// (b) the registered waiters are invoked and joined inside Run itself
-			why, ok := runInvokesWaiters(p, run, queue)
+			why, ok := runInvokesWaiters(p, run, queue, ctxObj)
 			if ok {
 				R.OK("O4", at, pos, why)
 			} else {
@@ -794,7 +834,7 @@ func checkRunAwaits(c *Ctx, run *Func) {
 // runInvokesWaiters: in run's own body there is a loop over q.Iterator() that
 // invokes every value (directly or in a goroutine it starts), followed by a
 // wait-group join that dominates every return after the loop.
-func runInvokesWaiters(p *Prog, run *Func, q types.Object) (string, bool) {
+func runInvokesWaiters(p *Prog, run *Func, q types.Object, ctxObj types.Object) (string, bool) {
 	info := run.Info()
 	var iter types.Object
 	walkNoLit(run.Body, func(x ast.Node) bool {
@@ -888,14 +928,14 @@ func runInvokesWaiters(p *Prog, run *Func, q types.Object) (string, bool) {
 	var join ast.Node
 	walkNoLit(run.Body, func(x ast.Node) bool {
 		if call, ok := x.(*ast.CallExpr); ok && call.Pos() > loop.End() {
-			if _, isWait := isWaitCall(info, call); isWait && join == nil {
+			if _, isWait := isWaitCall(info, call); isWait && join == nil && !waitBoundedBy(run, call, ctxObj) {
 				join = call
 			}
 		}
 		return true
 	})
 	if join == nil {
-		return "starts the waiters but does not join them before returning", false
+		return "starts the waiters but does not join them (with a wait that outlasts Run's own context) before returning", false
 	}
 	ok := true
 	walkNoLit(run.Body, func(x ast.Node) bool {
@@ -908,4 +948,25 @@ func runInvokesWaiters(p *Prog, run *Func, q types.Object) (string, bool) {
 		return "can return after the waiter loop without the join", false
 	}
 	return fmt.Sprintf("the member's Wait is registered in %s; Run calls every registered waiter and joins them (%s) before it returns", q.Name(), p.Position(join.Pos())), true
+}
+
+// waitBoundedBy: the wait call gives up when ctx ends — WaitGroup.Wait(c) with
+// c being ctx itself or a context derived from it.
+func waitBoundedBy(f *Func, call *ast.CallExpr, ctx types.Object) bool {
+	info := f.Info()
+	if ctx == nil || len(call.Args) != 1 || !isWGMethod(callName(info, call), "Wait") {
+		return false
+	}
+	mentions := func(e ast.Expr) bool {
+		hit := false
+		ast.Inspect(e, func(y ast.Node) bool {
+			if id, ok := y.(*ast.Ident); ok && info.Uses[id] == ctx {
+				hit = true
+			}
+			return !hit
+		})
+		return hit
+	}
+	arg := call.Args[0]
+	return mentions(arg) || mentions(resolveLocal(f, arg))
 }
